@@ -267,6 +267,17 @@ func init() {
 			a.MoveFront(a.Get(a.Len() - 1).CreatedAt())
 		}
 	})
+	// MoveBefore: last element before the first / first element before the last
+	reg("a.mvBef0L", func(r *json.Object, _ *document.Presence, v int) {
+		if a := arr(r); a != nil && a.Len() > 1 {
+			a.MoveBefore(a.Get(0).CreatedAt(), a.Get(a.Len()-1).CreatedAt())
+		}
+	})
+	reg("a.mvBefL0", func(r *json.Object, _ *document.Presence, v int) {
+		if a := arr(r); a != nil && a.Len() > 2 {
+			a.MoveBefore(a.Get(a.Len()-1).CreatedAt(), a.Get(0).CreatedAt())
+		}
+	})
 	reg("a.mvLast0", func(r *json.Object, _ *document.Presence, v int) {
 		if a := arr(r); a != nil && a.Len() > 1 {
 			a.MoveLast(a.Get(0).CreatedAt())
